@@ -188,6 +188,27 @@ pub fn parse_val(s: &str) -> Dynamic {
     } else { Dynamic::UNIT }
 }
 
+/// an attribute value / attribute record handed to `enforce` the README's way: a serde-serialisable value inside a tuple
+#[derive(serde::Serialize, Hash, Clone)]
+#[serde(untagged)]
+pub enum AV { S(String), I(i32), B(bool), U(()) }
+pub type ARec = std::collections::BTreeMap<String, AV>;
+fn parse_rec(s: &str) -> Option<ARec> {
+    let b = s.strip_prefix("m:")?;
+    let mut m = ARec::new();
+    if !b.is_empty() {
+        for kv in b.split('&') {
+            let mut it = kv.splitn(2, '=');
+            let k = unesc(it.next().unwrap_or(""));
+            let v = it.next().unwrap_or("u:");
+            let av = if let Some(x) = v.strip_prefix("s:") { AV::S(unesc(x)) } else if let Some(x) = v.strip_prefix("i:") { AV::I(unesc(x).parse::<i32>().unwrap_or(0)) }
+                     else if let Some(x) = v.strip_prefix("b:") { AV::B(x == "true") } else { AV::U(()) };
+            m.insert(k, av);
+        }
+    }
+    Some(m)
+}
+
 /// a stable choice among the equivalent spellings of an API call: a function of the op's text only
 fn variant(f: &[&str]) -> usize {
     let mut h: u64 = 0xcbf29ce484222325;
@@ -487,6 +508,16 @@ impl EnfWorld {
                         let v = variant(&[r]) % 5;
                         // ... or, when every value is a string, as a tuple (the README's way: serde conversion per element)
                         let strs: Option<Vec<String>> = if r == "|" { None } else { r.split(',').map(|x| x.strip_prefix("s:").map(unesc)).collect() };
+                        // ... or, for an attribute record followed by two strings, as a tuple holding a serialisable record (ABAC the
+                        // README's way: serde turns the record into a rhai map)
+                        if !ctx && v == 3 {
+                            let parts: Vec<&str> = if r == "|" { vec![] } else { r.split(',').collect() };
+                            if parts.len() == 3 { if let (Some(rec0), Some(s1), Some(s2)) = (parse_rec(parts[0]), parts[1].strip_prefix("s:").map(unesc), parts[2].strip_prefix("s:").map(unesc)) {
+                                let res = catch(|| with_e!(&*e, x => x.enforce((rec0.clone(), s1.clone(), s2.clone()))));
+                                out.push(out_c(res));
+                                continue;
+                            } }
+                        }
                         if !ctx && v == 4 { if let Some(t) = strs.as_ref().filter(|t| (1..=5).contains(&t.len())) {
                             let t = t.clone();
                             let res = catch(|| with_e!(&*e, x => match t.len() {
